@@ -329,7 +329,7 @@ class SFNTWriter(object):
                 self.majorVersion = data.majorVersion
                 self.minorVersion = data.minorVersion
             else:
-                if hasattr(self, "headTable"):
+                if hasattr(self, "headTable") and len(self.headTable) >= 8:
                     self.majorVersion, self.minorVersion = struct.unpack(
                         ">HH", self.headTable[4:8]
                     )
